@@ -2532,6 +2532,11 @@ class Evaluator:
                 if ok:
                     self.resolved_calls += 1
                     return self.template(parts)
+        if isinstance(func, Attr) and func.name == 'index' and not star and not kwargs and len(args) == 1 and isinstance(args[0], (Const, EnumMember)):
+            seq = func.base.value if isinstance(func.base, GlobalVal) else func.base
+            if isinstance(seq, TupleT) and seq.kind in ('tuple', 'list') and all(isinstance(x, (Const, EnumMember)) for x in seq.items) and args[0] in seq.items:
+                self.resolved_calls += 1
+                return Const(seq.items.index(args[0]))      # position in an evident sequence
         if isinstance(func, Attr) and func.name == 'get' and not star and not kwargs and 1 <= len(args) <= 2:
             bd = func.base.value if isinstance(func.base, GlobalVal) else func.base
             if isinstance(bd, DictT):
